@@ -1,6 +1,7 @@
 open BinNums
 open BinPosDef
 open Datatypes
+open Nat
 
 module Pos =
  struct
@@ -161,4 +162,53 @@ module Pos =
     | Coq_xH -> (match q with
                  | Coq_xH -> true
                  | _ -> false)
+
+  (** val coq_Nsucc_double : coq_N -> coq_N **)
+
+  let coq_Nsucc_double = function
+  | N0 -> Npos Coq_xH
+  | Npos p -> Npos (Coq_xI p)
+
+  (** val coq_Ndouble : coq_N -> coq_N **)
+
+  let coq_Ndouble = function
+  | N0 -> N0
+  | Npos p -> Npos (Coq_xO p)
+
+  (** val coq_land : positive -> positive -> coq_N **)
+
+  let rec coq_land p q =
+    match p with
+    | Coq_xI p0 ->
+      (match q with
+       | Coq_xI q0 -> coq_Nsucc_double (coq_land p0 q0)
+       | Coq_xO q0 -> coq_Ndouble (coq_land p0 q0)
+       | Coq_xH -> Npos Coq_xH)
+    | Coq_xO p0 ->
+      (match q with
+       | Coq_xI q0 -> coq_Ndouble (coq_land p0 q0)
+       | Coq_xO q0 -> coq_Ndouble (coq_land p0 q0)
+       | Coq_xH -> N0)
+    | Coq_xH -> (match q with
+                 | Coq_xO _ -> N0
+                 | _ -> Npos Coq_xH)
+
+  (** val iter_op : ('a1 -> 'a1 -> 'a1) -> positive -> 'a1 -> 'a1 **)
+
+  let rec iter_op op p a =
+    match p with
+    | Coq_xI p0 -> op a (iter_op op p0 (op a a))
+    | Coq_xO p0 -> iter_op op p0 (op a a)
+    | Coq_xH -> a
+
+  (** val to_nat : positive -> nat **)
+
+  let to_nat x =
+    iter_op Nat.add x (S O)
+
+  (** val of_succ_nat : nat -> positive **)
+
+  let rec of_succ_nat = function
+  | O -> Coq_xH
+  | S x -> succ (of_succ_nat x)
  end
